@@ -100,7 +100,15 @@ func opBaseKey(in ssa.Instruction) string {
 			return f.Name() + "(" + valueName(x.Call.Args[0]) + ")"
 		}
 		if f := x.Call.StaticCallee(); f != nil && len(x.Call.Args) == 0 && f.Pkg != nil && strings.HasPrefix(f.Pkg.Pkg.Path(), modulePath) {
-			// argument-less call of a module function (pause.Resume(), stats.SeedsFinishedIncr())
+			// argument-less call of a module function (pause.Resume(), stats.SeedsFinishedIncr());
+			// a function of another package is named with its package
+			caller := in.Parent()
+			for caller != nil && caller.Pkg == nil && caller.Parent() != nil {
+				caller = caller.Parent()
+			}
+			if caller != nil && caller.Pkg != nil && caller.Pkg != f.Pkg {
+				return f.Pkg.Pkg.Name() + "." + f.Name() + "()"
+			}
 			return f.Name() + "()"
 		}
 		if x.Call.StaticCallee() == nil && !x.Call.IsInvoke() {
@@ -832,16 +840,22 @@ func (c *FnCtx) hookedAll(fr *Frame) {
 	}
 	sort.Strings(names)
 	props := c.props
+	lastWasTag := false
 	for _, nm := range strings.Fields(strings.ReplaceAll(spec, ",", " ")) {
 		if strings.HasPrefix(nm, "@") {
-			// `attr hooked @C01 a,b`: the obligations count for that property
-			props = []string{strings.TrimPrefix(nm, "@")}
+			// `attr hooked @C01 a,b`: the obligations count for that property (`@C01 @C04 a`: both)
+			if !lastWasTag {
+				props = nil
+			}
+			props = append(props, strings.TrimPrefix(nm, "@"))
+			lastWasTag = true
 			continue
 		}
+		lastWasTag = false
 		r := &OblResult{Name: c.eng.shortFuncName(fr.fn) + "/hooked:" + nm, Class: "hooked", Func: c.eng.funcKey(fr.fn), Kind: "prove",
 			Clause: "every operation on " + nm + " carries an after-hook", Status: "discharged", Solve: SolveResult{Status: "unsat", Winner: "opkey-scan"}}
 		for _, k := range names {
-			if (strings.Contains(k, "("+nm+")") || strings.HasPrefix(k, nm+"(")) && len(c.og.afters[k]) == 0 && len(c.og.afters[k[:strings.Index(k, "(")]+"(*)"]) == 0 {
+			if (strings.Contains(k, "("+nm+")") || strings.HasPrefix(k, nm+"(") || strings.Contains(k, "."+nm+"(")) && len(c.og.afters[k]) == 0 && len(c.og.afters[k[:strings.Index(k, "(")]+"(*)"]) == 0 {
 				r.Status = "refuted"
 				r.Solve = SolveResult{Status: "sat", Winner: "opkey-scan", Model: []string{"operation without after-hook: " + k}}
 			}
@@ -866,11 +880,18 @@ func (c *FnCtx) ownVars(fr *Frame) {
 		return
 	}
 	props := c.props
+	lastWasTag := false
 	for _, nm := range strings.Fields(strings.ReplaceAll(spec, ",", " ")) {
 		if strings.HasPrefix(nm, "@") {
-			props = []string{strings.TrimPrefix(nm, "@")}
+			// `@C02 @C04 name`: consecutive tags accumulate
+			if !lastWasTag {
+				props = nil
+			}
+			props = append(props, strings.TrimPrefix(nm, "@"))
+			lastWasTag = true
 			continue
 		}
+		lastWasTag = false
 		r := &OblResult{Name: c.eng.shortFuncName(fr.fn) + "/own-var:" + nm, Class: "own-var", Func: c.eng.funcKey(fr.fn), Kind: "prove",
 			Clause: nm + " is declared by the function itself, not captured from the enclosing one", Status: "discharged", Solve: SolveResult{Status: "unsat", Winner: "ssa-scan"}}
 		declared := false
